@@ -11,6 +11,7 @@ import (
 	"github.com/parquet-go/parquet-go"
 	"pgregory.net/rapid"
 
+	"verifharness/c02"
 	"verifharness/gen"
 	"verifharness/kit"
 	"verifharness/pq"
@@ -104,6 +105,9 @@ func (s *sink) Write(p []byte) (int, error) {
 // shortWrites is the number of short-count-nil-error WriteRows calls of the last writeTo.
 var shortWrites int
 
+// lastCloseErr is what Close returned in the last writeTo (also when an earlier call had failed).
+var lastCloseErr error
+
 func writeTo(c Case, cols []ref.Column, rows []parquet.Row, out io.Writer, tmp string) (err error, panicked any) {
 	defer func() {
 		if r := recover(); r != nil {
@@ -120,6 +124,7 @@ func writeTo(c Case, cols []ref.Column, rows []parquet.Row, out io.Writer, tmp s
 	werr := pq.ApplyOps(wrapped{Writer: w, rw: wrapRows(c.Wrap, w), short: &short}, rows, c.Ops)
 	cerr := w.Close()
 	shortWrites = short
+	lastCloseErr = cerr
 	if werr != nil {
 		return werr, nil
 	}
@@ -246,6 +251,15 @@ func runSink(c Case, o *kit.Obs) *kit.Failure {
 		if err == nil {
 			return kit.Failf("c14/sink/error-absorbed"+feat+"{region="+regionOf(pf, int64(L))+"}", "sink accepted only %d of %d bytes (failure inside %s) but Write/Flush/Close all returned nil (%d WriteRows calls returned a short count with a nil error)", L, size, regionOf(pf, int64(L)), shortWrites)
 		}
+		if lastCloseErr == nil && c.Enc == 0 {
+			// an earlier call reported the failure and Close, called after it, claims success:
+			// then what the sink holds must at least be a well-formed file
+			if _, is := c02.Verify(s.buf.Bytes(), c02.Expect{}); is != nil {
+				return kit.Failf("c14/sink/close-nil-on-broken-file"+feat+"{region="+regionOf(pf, int64(L))+"}", "the sink failed at offset %d of %d (inside %s), a call reported %q, and Close then returned nil although the %d bytes the sink holds are not a well-formed file: %s: %s",
+					L, size, regionOf(pf, int64(L)), err, s.buf.Len(), is.Rule, is.Msg)
+			}
+			o.Metric("close_nil_after_failure_wellformed", 1)
+		}
 		regions[regionOf(pf, int64(L))] = true
 		o.Metric("sink_offsets_tried", 1)
 	}
@@ -275,7 +289,7 @@ var sinkSpec = &kit.Spec[Case]{
 	Name:     "sink",
 	Rule: "a small generated file (≤3 leaves, ≤120 rows, all option combinations incl. WriteBufferSize 0/64/1000/default, chunk and file-backed page buffer pools, bloom filters immediate/deferred/gzip, several row groups, optionally encrypted with an encrypted or signed plaintext footer) " +
 		"is first written fault-free (size S); then the same Write/Flush/Close history is replayed against a sink that accepts exactly L bytes and then returns (k<len(p), err) with err either its own error or io.ErrShortWrite, " +
-		"(in a third of the cases the sink fails only once and accepts every later write; in a sixth the file is one row group of 500-700 rows with values up to 200 bytes, so page buffers span several pooled chunks) for every L < S (or every k-th for large files; metrics.sink_offsets_tried counts them): some call must return non-nil and nothing may panic; with room for S bytes the result must be nil and byte-identical. " +
+		"(in a third of the cases the sink fails only once and accepts every later write; in a sixth the file is one row group of 500-700 rows with values up to 200 bytes, so page buffers span several pooled chunks) for every L < S (or every k-th for large files; metrics.sink_offsets_tried counts them): some call must return non-nil and nothing may panic, and when Close, called after the failure was reported, returns nil, the bytes the sink holds must be a well-formed file for the independent walker of C02 (unencrypted cases); with room for S bytes the result must be nil and byte-identical. " +
 		"Non-trivial = the tried offsets fall in at least 3 of the regions magic / pages / bloom-or-index / footer.",
 	Assumptions: []string{"only contract-respecting sinks (a short count always comes with a non-nil error)"},
 	Gen:         genCase,
